@@ -107,3 +107,92 @@ Example C08_example_nfo :
   | None => false
   end = true.
 Proof. vm_compute. reflexivity. Qed.
+
+(* ---- the REGISTRY stage (Proofs/RegistryNF.v).  nfw = ordered normal form + well-formed literals; sn = the semi-normal
+   form that _merge followed by ONE simplification pass reaches (it still allows int beside float, Any beside a concrete
+   member, str beside another string type, a repeated pointer); gnf / gsn: every model of the graph is nfw / sn.
+   C08_pipeline_nfo: for EVERY run generate -> process_root -> merge_models that succeeds, every model of the final registry
+   is in ordered normal form, and a further pass over any model (or all of them) that succeeds returns the SAME graph.
+   C08_one_pass_not_enough / C08_final_pass_repairs: the second pass of merge_models is load-bearing — after the merge and
+   one pass a merged model can still hold int beside float (the Optional member hid a second int and list.remove drops only
+   one); the final pass repairs it.  The pass order does not matter: opt_model does not depend on the pointer comparison
+   (GraphSound.optimize_gok).  NOT PROVED: that a further pass never runs out of the model's fuel (OPT_FUEL = 60 stands for
+   Python's recursion limit): the stability statement is an implication. ---- *)
+From J2M.Model Require Import Registry Groups.
+From J2M.Proofs Require Import RegistryInvAux RegistryInv GraphSound RegistryNF.
+
+Theorem C08_pipeline_nfo :
+  forall (registry : list pseudo) (replaces : list (pseudo * pseudo)) (accepts : pseudo -> str -> bool)
+         (n_regex : nat) (key_matches : nat -> str -> bool) (dict_fields : list str) 
+         (R : nat -> nat -> bool) (fuel : nat) (samples : list (list (str * json))) 
+         (fs : fields) (name : option str) (idx : N) (g1 g2 : graph) (reps : list (N * list N)),
+       samples_wf samples = true ->
+       generate registry replaces accepts n_regex key_matches dict_fields fuel samples = Some fs ->
+       process_root fs name empty_graph = (idx, g1) ->
+       merge_models registry replaces R g1 = Some (g2, reps) ->
+       gnf registry g2 /\
+       (forall (i : N) (g3 : graph), opt_model registry replaces g2 i = Some g3 -> g3 = g2) /\
+       (forall (l : list N) (g3 : graph), opt_all registry replaces l (Some g2) = Some g3 -> g3 = g2).
+Proof. exact RegistryNF.pipeline_nfo. Qed.
+
+Theorem C08_merge_models_nfo :
+  forall (registry : list pseudo) (replaces : list (pseudo * pseudo)) (R : nat -> nat -> bool)
+         (g g' : graph) (reps : list (N * list N)),
+       closed g -> gwf g -> gsn g -> merge_models registry replaces R g = Some (g', reps) -> gnf registry g'.
+Proof. exact RegistryNF.merge_models_nfo. Qed.
+
+Theorem C08_merge_models_stable :
+  forall (registry : list pseudo) (replaces : list (pseudo * pseudo)) (R : nat -> nat -> bool)
+         (g g' : graph) (reps : list (N * list N)),
+       closed g ->
+       gwf g ->
+       gsn g ->
+       merge_models registry replaces R g = Some (g', reps) ->
+       (forall (i : N) (g2 : graph), opt_model registry replaces g' i = Some g2 -> g2 = g') /\
+       (forall (l : list N) (g2 : graph), opt_all registry replaces l (Some g') = Some g2 -> g2 = g').
+Proof. exact RegistryNF.merge_models_stable. Qed.
+
+Theorem C08_opt_model_nfo :
+  forall (registry : list pseudo) (replaces : list (pseudo * pseudo)) (g : graph) (i : N) (g' : graph),
+       gwf g ->
+       (forall fs : fields, fields_of g i = Some fs -> snf fs = true) ->
+       opt_model registry replaces g i = Some g' ->
+       exists fs' : fields,
+         fields_of g' i = Some fs' /\
+         nfw registry fs' = true /\ (forall j : N, j <> i -> find_model g' j = find_model g j).
+Proof. exact RegistryNF.opt_model_nfo. Qed.
+
+Theorem C08_merge_group_gsn :
+  forall (registry : list pseudo) (replaces : list (pseudo * pseudo)) (g : graph) 
+         (mbs : list N) (g1 : graph),
+       closed g -> gwf g -> gsn g -> merge_group registry replaces g mbs = Some g1 -> gsn g1.
+Proof. exact RegistryNF.merge_group_gsn. Qed.
+
+Theorem C08_optimize_sn_nfo :
+  forall (registry : list pseudo) (replaces : list (pseudo * pseudo)) (peq : N -> N -> bool)
+         (fuel : nat) (t t' : ty),
+       sn t = true ->
+       optimize registry replaces peq fuel t = Some t' -> nfo registry t' = true /\ wf3 t' = true.
+Proof. exact RegistryNF.optimize_sn_nfo. Qed.
+
+Theorem C08_optimize_mm_sn :
+  forall (registry : list pseudo) (replaces : list (pseudo * pseudo)) (peq : N -> N -> bool)
+         (fuel : nat) (t t' : ty),
+       mm t = true -> optimize registry replaces peq fuel t = Some t' -> sn t' = true.
+Proof. exact RegistryNF.optimize_mm_sn. Qed.
+
+Theorem C08_one_pass_not_enough :
+  merge_group nil nil Cex.g1 (1%N :: 2%N :: 3%N :: nil) = Some Cex.g_mid /\
+       fields_of Cex.g_mid 4 =
+       Some ((Cex.kx, TOpt (TUnion (TBool :: TInt :: TFloat :: nil))) :: (Cex.ky, TOpt TInt) :: nil) /\
+       nfw nil (fields_of_d Cex.g_mid 4) = false /\ snf (fields_of_d Cex.g_mid 4) = true.
+Proof. exact RegistryNF.Cex.merge_group_not_nfo. Qed.
+
+Theorem C08_final_pass_repairs :
+  merge_models nil nil Cex.R3 Cex.g1 = Some (Cex.g2, (4%N, 1%N :: 2%N :: 3%N :: nil) :: nil) /\
+       mm_mid nil nil Cex.R3 Cex.g1 = Some (Cex.g_mid, (4%N, 1%N :: 2%N :: 3%N :: nil) :: nil) /\
+       fields_of Cex.g2 4 =
+       Some ((Cex.kx, TOpt (TUnion (TBool :: TFloat :: nil))) :: (Cex.ky, TOpt TInt) :: nil) /\
+       all_nfw nil Cex.g2 = true /\ pass_all nil nil Cex.g2 = Some Cex.g2.
+Proof. exact RegistryNF.Cex.merge_models_nfo_run. Qed.
+
